@@ -311,6 +311,13 @@ def run_property(prop, tier, seed=0, budget_s=None, jobs=None, only=None, slice_
         elif r['status'] == 'engine-error':
           a['status'] = 'engine-error'; engine_errors.append(r.get('reason'))
         left = r['leftover']
+        if failures and os.environ.get('VERIF_STOP_EARLY'):
+          # seed-matrix aid: a candidate violation is in hand - do not explore further (the run is then not a full run; the candidate is still
+          # replayed on the unmodified code before anything is reported)
+          for p_ in list(pending):
+            if p_.cancel(): pending.discard(p_)
+          if 'stopped early after the first failing path (VERIF_STOP_EARLY)' not in inconclusive: inconclusive.append('stopped early after the first failing path (VERIF_STOP_EARLY)')
+          continue
         # hand out subtrees one by one while workers are idle, else in chunks (less re-execution overhead)
         chunk = 1 if len(pending) < 2 * jobs else max(1, len(left) // 4)
         for i in range(0, len(left), chunk):
